@@ -36,6 +36,9 @@ def tstr(x):
   return f"{x.numerator}/{x.denominator}"
 
 
+_FRESH = [0]
+
+
 def _styles(m, sp, el, st, kind):
   S = sp.StyleProperties
   if "fw" in st:
@@ -46,10 +49,16 @@ def _styles(m, sp, el, st, kind):
     td = {"u": sp.TextDecorationType(underline=True), "nou": sp.TextDecorationType(underline=False),
           "lt": sp.TextDecorationType(line_through=True)}[st["td"]]
     el.set_style(S.TextDecoration, td)
+  # (one time in two the value is an object of its own, equal to - but not the same object as - the named colour that other
+  # elements, the initial values and the writers' defaults use: values are compared by value)
+  def colour(name, salt):
+    v = sp.NamedColors[name].value
+    return sp.ColorType(tuple(v.components)) if (_FRESH[0] + salt) % 2 else v
+  _FRESH[0] += 1
   if "col" in st and kind == "span":
-    el.set_style(S.Color, sp.NamedColors[st["col"]].value)
+    el.set_style(S.Color, colour(st["col"], 0))
   if "bg" in st and kind == "span":
-    el.set_style(S.BackgroundColor, sp.NamedColors[st["bg"]].value)
+    el.set_style(S.BackgroundColor, colour(st["bg"], 1))
   if "ta" in st and kind == "p":
     el.set_style(S.TextAlign, sp.TextAlignType[st["ta"]])
   if "dir" in st and kind == "p":
